@@ -112,6 +112,20 @@ macro_rules! observe_fn {
         st.ctx.fail("iter", sig("into_iter", "items"), format!("{} items", it2.len()), format!("{n}"));
         return;
     }
+    set_op("bv:iter_protocol");
+    st.ctx.out.checks += 8;
+    let salt = st.step * 13 + n;
+    let r = iter_protocol(|| v.iter(), &st.bits, salt, false)
+        .map(|e| format!("iter(): {e}"))
+        .or_else(|| iter_protocol(|| v.iter_ones(), &ones, salt + 1, false).map(|e| format!("iter_ones(): {e}")))
+        .or_else(|| {
+            let zeros: Vec<usize> = (0..n).filter(|&i| !st.bits[i]).collect();
+            iter_protocol(|| v.iter_zeros(), &zeros, salt + 2, false).map(|e| format!("iter_zeros(): {e}"))
+        });
+    if let Some(e) = r {
+        st.ctx.fail("iter_protocol", sig("iter", "iterator_protocol"), format!("{e} (len {n}, step {} {op})", st.step), "what the same calls give on a slice");
+        return;
+    }
     set_op("bv:iter_ones");
     let io: Vec<usize> = v.iter_ones().collect();
     if io != ones {
@@ -282,6 +296,7 @@ macro_rules! common_fn {
             let (label, r) = match kind {
                 0 => ("get_out_of_range", expect_panic(|| v.get(n + *k)).map_err(|x| format!("returned {x}"))),
                 1 => ("set_out_of_range", expect_panic(|| v.set(n + *k, true)).map_err(|_| "returned".to_string())),
+                7 => ("index_out_of_range", expect_panic(|| v[n + *k]).map_err(|x| format!("v[{}] returned {x} (len {n})", n + *k))),
                 _ => return false,
             };
             st.ctx.out.checks += 1;
